@@ -254,7 +254,15 @@ class CounterToken(Token, FileSystemEventHandler):
         for path in self.path.glob("*.token"):
             tf = old_cache.get(path.name)
             if tf is None:
-                tf = TokenFile(path)
+                try:
+                    tf = TokenFile(path)
+                except ValueError:
+                    # Created but never written: we hold the token lock, so the
+                    # process that was creating it died in between (nothing
+                    # was taken)
+                    logging.warning("Removing the unwritten token file %s", path)
+                    path.unlink()
+                    continue
                 tf.watch()
                 logging.debug("Read token file %s (%d)", path, tf.count)
             else:
